@@ -1025,18 +1025,23 @@ static int record_ret_stack(struct mcount_thread_data *mtdp, enum uftrace_record
 	buf[0] = timestamp;
 	buf[1] = rec;
 
-	curr_buf->size += sizeof(*frstack);
-	mrstack->flags |= MCOUNT_FL_WRITTEN;
-
 	if (argbuf) {
-		unsigned int *ptr = (void *)curr_buf->data + curr_buf->size;
+		unsigned int *ptr = (void *)(buf + 2);
 
 		size -= sizeof(*frstack);
 
 		mcount_memcpy4(ptr, argbuf + 4, size);
 
-		curr_buf->size += ALIGN(size, 8);
+		/*
+		 * make the record visible to the recorder only when it is
+		 * complete: it may flush this buffer at any time if we die.
+		 */
+		curr_buf->size += sizeof(*frstack) + ALIGN(size, 8);
 	}
+	else {
+		curr_buf->size += sizeof(*frstack);
+	}
+	mrstack->flags |= MCOUNT_FL_WRITTEN;
 
 	pr_dbg3("rstack[%d] %s %lx\n", mrstack->depth, type == UFTRACE_ENTRY ? "ENTRY" : "EXIT ",
 		mrstack->child_ip);
